@@ -297,11 +297,11 @@ func runHarness(ld *Loaded, cfg Config, pkg *ssa.Package, fn *ssa.Function, work
 				for _, p := range e.pending {
 					stack = append(stack, workItem{p})
 				}
-				if time.Now().After(deadline) && (len(stack) > 0) {
+				if !stop && time.Now().After(deadline) && (len(stack) > 0) {
 					uniq(&hr.Truncated, fmt.Sprintf("time budget exhausted with %d prefixes pending", len(stack)))
 					stop = true
 				}
-				if maxPaths > 0 && hr.Paths >= maxPaths && len(stack) > 0 {
+				if !stop && maxPaths > 0 && hr.Paths >= maxPaths && len(stack) > 0 {
 					uniq(&hr.Truncated, fmt.Sprintf("path budget %d exhausted with %d prefixes pending", maxPaths, len(stack)))
 					stop = true
 				}
